@@ -38,6 +38,8 @@ HANDLER = {
     'ArithmeticError': ARITH,
     'np.linalg.LinAlgError': ['ELinAlg'], 'numpy.linalg.LinAlgError': ['ELinAlg'], 'LinAlgError': ['ELinAlg'],
     'MemoryError': ['EMemory'], 'OSError': ['EOs'], 'IOError': ['EOs'],
+    # proper subclasses of OSError: a handler that names only these does not cover the kind
+    'FileNotFoundError': [], 'PermissionError': [], 'IsADirectoryError': [], 'NotADirectoryError': [], 'FileExistsError': [],
     'NotImplementedError': ['ENotImpl'], 'UnboundLocalError': ['EUnbound'], 'NameError': ['EUnbound'],
 }
 CATCH_ALL = ('Exception', 'BaseException')
